@@ -1545,7 +1545,7 @@ class SQLGenerator:
             final_query += f"\nORDER BY {', '.join(order_clauses)}"
 
         # Add LIMIT and OFFSET
-        if limit:
+        if limit is not None:
             final_query += f"\nLIMIT {limit}"
         if offset:
             final_query += f"\nOFFSET {offset}"
@@ -1881,7 +1881,7 @@ class SQLGenerator:
             query = query.order_by(*order_by_aliases)
 
         # Add LIMIT and OFFSET
-        if limit:
+        if limit is not None:
             query = query.limit(limit)
         if offset:
             query = query.offset(offset)
@@ -3072,7 +3072,7 @@ LEFT JOIN conversions ON {join_condition}{group_by}{order_clause}{limit_clause}
             outer_query += f"\nORDER BY {', '.join(order_clauses)}"
 
         # Add LIMIT and OFFSET if specified
-        if limit:
+        if limit is not None:
             outer_query += f"\nLIMIT {limit}"
         if offset:
             outer_query += f"\nOFFSET {offset}"
@@ -3312,7 +3312,7 @@ LEFT JOIN conversions ON {join_condition}{group_by}{order_clause}{limit_clause}
 
         # Build LIMIT/OFFSET clause
         limit_clause = ""
-        if limit:
+        if limit is not None:
             limit_clause = f"\nLIMIT {limit}"
         if offset:
             limit_clause += f"\nOFFSET {offset}"
